@@ -400,7 +400,7 @@ Definition rk_of (rc : N * N * N) : N := fst (fst rc).
 (* what the checker demands, as a proposition about the final state of the model *)
 Definition Post (rd exact : bool) (t : target) (addr count : N) (s0 : sstream) (m0 : list N)
   (s' : sstream) (m' : list N) (rc : N * N * N) : Prop :=
-  exists k, GMoved rd t s0 m0 addr k s' m' /\ LogRes (k_done s') (rk_of rc) /\
+  exists k, GMoved rd t s0 m0 addr k s' m' /\ k <= count /\ LogRes (k_done s') (rk_of rc) /\
     (if exact then rk_of rc <> 0 /\
                    (existsb is_hard (k_done s') = false -> judged t addr count -> (rk_of rc = 1 <-> k = count))
      else rk_of rc <> 1 /\ (rk_of rc = 0 -> snd (fst rc) = k)).
@@ -435,6 +435,7 @@ Proof.
       - intros i Hi. rewrite Hw. unfold sl2, sl in *. cbn [vs_off vs_len] in *.
         destruct (N.ltb_spec (addr + i) (vs_len self)); [f_equal; lia|lia].
       - unfold in_bounds, sl2, sl in *. cbn [vs_off vs_len] in *. lia. }
+    split. { unfold sl2 in Hk. cbn [vs_len] in Hk. unfold n in Hk. lia. }
     destruct Hres as [(Hh & -> & ->)|(Hh & ->)].
     + cbn [rc_res rk_of fst snd rc_io]. split.
       * apply LogRes_hard. rewrite Hd. destruct b; try discriminate. apply HardEnd_step. exact Hc.
@@ -444,7 +445,7 @@ Proof.
       * split; [lia|reflexivity].
   - destruct (vs_offset_err self addr Hgt) as (e & -> & He).
     exists s, m, (Err e). split; [reflexivity|]. split; [auto|].
-    exists 0. split; [apply GMoved_refl|].
+    exists 0. split; [apply GMoved_refl|]. split; [lia|].
     assert (E : rc_res okc_n (@Err N e) = (6, 0, 0)) by (destruct He; subst; reflexivity).
     rewrite E. cbn [rk_of fst snd]. split; [apply LogRes_clean; [exact Hc|lia|lia]|]. split; [lia|intros; lia].
 Qed.
@@ -462,7 +463,7 @@ Proof.
   destruct (N.ltb_spec (addr + count) W64) as [Hfit|Hovf].
   - destruct (N.ltb_spec (vs_len self) (addr + count)) as [Hout|Hin].
     + exists s, m, (Err VOutOfBounds). split; [reflexivity|]. split; [auto|].
-      exists 0. split; [apply GMoved_refl|]. cbn [rc_res rk_of fst snd].
+      exists 0. split; [apply GMoved_refl|]. split; [lia|]. cbn [rc_res rk_of fst snd].
       split; [apply LogRes_clean; [exact Hc|lia|lia]|]. split; [lia|].
       intros _ Hj. split; [lia|]. intros E. exfalso. apply (Hnj Hout Hj). exact E.
     + set (sl := {| vs_addr := vs_addr self + addr; vs_off := vs_off self + addr; vs_len := count |}).
@@ -478,7 +479,7 @@ Proof.
       { eapply Moved_GMoved; [|exact HM]. unfold pb, sl in *. cbn [vs_off vs_len] in *. split.
         - intros i Hi. rewrite Hw. destruct (N.ltb_spec (addr + i) (vs_len self)); [f_equal; lia|lia].
         - unfold in_bounds in Hb. lia. }
-      unfold pb, sl in Hk, Hres. cbn [vs_len] in Hk, Hres.
+      unfold pb, sl in Hk, Hres. cbn [vs_len] in Hk, Hres. split; [lia|].
       destruct Hres as [(-> & Hke & Hc1)|[(-> & Hke & Hc1)|(-> & Hke & Hc1)]].
       * cbn [rc_res rk_of fst snd okc_u]. split; [apply LogRes_clean; [exact Hc1|lia|lia]|]. split; [lia|].
         intros _ _. split; [lia|reflexivity].
@@ -491,7 +492,7 @@ Proof.
         destruct (k_done s1) as [|x d] using rev_ind; [discriminate|]. rewrite last_snoc in H1.
         rewrite existsb_app in Hh. cbn [existsb] in Hh. rewrite H1, orb_true_r in Hh. discriminate.
   - exists s, m, (Err VOverflow). split; [reflexivity|]. split; [auto|].
-    exists 0. split; [apply GMoved_refl|]. cbn [rc_res rk_of fst snd].
+    exists 0. split; [apply GMoved_refl|]. split; [lia|]. cbn [rc_res rk_of fst snd].
     split; [apply LogRes_clean; [exact Hc|lia|lia]|]. split; [lia|].
     intros _ Hj. split; [lia|]. intros E. exfalso. apply Hnj; [|exact Hj|exact E].
     unfold in_bounds in Hb. lia.
@@ -594,7 +595,7 @@ Lemma try_access_post (rd : bool) md L M f F count addr :
     Clean (k_done s) -> nlen m = M -> cur < W64 -> (total = 0 -> cur = addr) -> (total < count \/ total = 0) ->
   exists s' m' r K, try_access md fuel L count addr f cur total s m = Val ((s', m'), r)
     /\ (forall sc, LogInv sc s -> LogInv sc s')
-    /\ GMoved rd (TGuest L) s m cur K s' m'
+    /\ GMoved rd (TGuest L) s m cur K s' m' /\ total + K <= count
     /\ ((r = GOk (total + K) /\ Clean (k_done s') /\ total + K <= count)
         \/ (r = GErr GInvalidGuestAddress /\ total = 0 /\ K = 0 /\ Clean (k_done s') /\ idx_of (TGuest L) addr = None)
         \/ (r = GErr (GIo EOther) /\ HardEnd (k_done s'))
@@ -607,9 +608,11 @@ Proof.
   2:{ (* no region at cur *)
     exists s, m. destruct (N.eqb_spec total 0) as [Hz|Hz].
     - exists (GErr GInvalidGuestAddress), 0. split; [reflexivity|]. split; [auto|]. split; [apply GMoved_refl|].
+      split; [lia|].
       right. left. split; [reflexivity|]. split; [exact Hz|]. split; [reflexivity|]. split; [exact Hc|].
       cbn [idx_of]. rewrite <- (Hta Hz). rewrite Efind. reflexivity.
     - exists (GOk total), 0. split; [reflexivity|]. split; [auto|]. split; [apply GMoved_refl|].
+      split; [lia|].
       left. rewrite N.add_0_r. split; [reflexivity|]. split; [exact Hc|]. lia. }
   apply find_some in Efind. destruct Efind as [Hin Hcont].
   destruct (wf_regions_in L 0 region Hwf Hin) as (Hlen & Hend & _ & Hmoff).
@@ -635,18 +638,19 @@ Proof.
   - (* the callback moved k bytes *)
     destruct (N.eqb_spec k 0) as [Hk0|Hk0].
     + subst k. exists s1, m1, (GOk total), 0. split; [reflexivity|]. split; [exact Hli|]. split; [exact HG|].
+      split; [lia|].
       left. rewrite N.add_0_r. split; [reflexivity|]. split; [exact Hc1|]. lia.
     + unfold checked_add. destruct (N.ltb_spec (total + k) W64) as [_|Hbad]; [|unfold len in Hk; lia].
       destruct (N.ltb_spec (total + k) count) as [Hmore|Hdone].
       * unfold overflowing_add. destruct (N.leb_spec W64 (cur + k)) as [Hbad|_];
           [unfold len, start in Hk; lia|]. cbn [negb].
         rewrite N.mod_small by (unfold len, start in Hk; lia).
-        destruct (IH (cur + k) (total + k) s1 m1) as (s2 & m2 & r2 & K2 & Hrec & Hli2 & HG2 & Hres2); auto.
+        destruct (IH (cur + k) (total + k) s1 m1) as (s2 & m2 & r2 & K2 & Hrec & Hli2 & HG2 & HK2 & Hres2); auto.
         { assert ((length (k_script s1) < length (k_script s))%nat) by (apply Hp; lia). lia. }
         { lia. } { unfold len, start in Hk; lia. } { intros; lia. }
         exists s2, m2, r2, (k + K2). split; [exact Hrec|]. split; [auto|].
         split; [eapply GMoved_trans; eassumption|].
-        rewrite N.add_assoc.
+        rewrite N.add_assoc. split; [exact HK2|].
         destruct Hres2 as [(-> & A & B)|[(-> & A & _)|[(-> & A)|(e & -> & A & B & C)]]].
         -- left. auto.
         -- exfalso. lia.
@@ -654,10 +658,13 @@ Proof.
         -- right. right. right. exists e. auto.
       * destruct (N.eqb_spec (total + k) count) as [Heq|Hne]; [|exfalso; unfold len in Hk; lia].
         exists s1, m1, (GOk (total + k)), k. split; [reflexivity|]. split; [exact Hli|]. split; [exact HG|].
+        split; [lia|].
         left. split; [reflexivity|]. split; [exact Hc1|]. lia.
   - exists s1, m1, (GErr (GIo EOther)), k. split; [reflexivity|]. split; [exact Hli|]. split; [exact HG|].
+    split; [unfold len in Hk; lia|].
     right. right. left. auto.
   - exists s1, m1, (GErr (GIo e)), k. split; [reflexivity|]. split; [exact Hli|]. split; [exact HG|].
+    split; [unfold len in Hk; lia|].
     right. right. right. exists e. split; [reflexivity|]. split; [exact He|]. split; [exact Hc1|]. unfold len in Hklt. lia.
 Qed.
 
@@ -725,34 +732,34 @@ Lemma gm_upto_post (rd : bool) md L M f F count addr s m :
 Proof.
   intros Hwf HM Hcb Hcount Haddr Hf Hc Hm.
   destruct (try_access_post rd md L M f F count addr Hwf HM Hcb Hcount F addr 0 s m)
-    as (s1 & m1 & r1 & K & Hr & Hli & HG & Hres); auto.
+    as (s1 & m1 & r1 & K & Hr & Hli & HG & HKc & Hres); auto.
   exists s1, m1, r1. split; [exact Hr|]. split; [exact Hli|].
   destruct Hres as [(-> & Hc1 & HK)|[(-> & _ & -> & Hc1 & Hidx)|[(-> & Hc1)|(e & -> & He & Hc1 & HK)]]];
     rewrite ?N.add_0_l in *.
   - split.
-    + exists K. split; [exact HG|]. cbn [rc_gres okc_n rk_of fst snd]. split; [apply LogRes_clean; [exact Hc1|lia|lia]|].
+    + exists K. split; [exact HG|]. split; [lia|]. cbn [rc_gres okc_n rk_of fst snd]. split; [apply LogRes_clean; [exact Hc1|lia|lia]|].
       split; [lia|reflexivity].
-    + exists K. split; [exact HG|]. destruct (N.eqb_spec K count) as [E|E]; cbn [rc_gres okc_u rk_of fst snd].
+    + exists K. split; [exact HG|]. split; [lia|]. destruct (N.eqb_spec K count) as [E|E]; cbn [rc_gres okc_u rk_of fst snd].
       * split; [apply LogRes_clean; [exact Hc1|lia|lia]|]. split; [lia|]. intros _ _. split; auto.
       * split; [apply LogRes_clean; [exact Hc1|lia|lia]|]. split; [lia|]. intros _ _. split; [lia|intros; contradiction].
   - split.
-    + exists 0. split; [exact HG|]. cbn [rc_gres rk_of fst snd]. split; [apply LogRes_clean; [exact Hc1|lia|lia]|].
+    + exists 0. split; [exact HG|]. split; [lia|]. cbn [rc_gres rk_of fst snd]. split; [apply LogRes_clean; [exact Hc1|lia|lia]|].
       split; [lia|intros; lia].
-    + exists 0. split; [exact HG|]. cbn [rc_gres rk_of fst snd]. split; [apply LogRes_clean; [exact Hc1|lia|lia]|].
+    + exists 0. split; [exact HG|]. split; [lia|]. cbn [rc_gres rk_of fst snd]. split; [apply LogRes_clean; [exact Hc1|lia|lia]|].
       split; [lia|]. intros _ [Hj|Hj]; [split; lia|contradiction].
   - split.
-    + exists K. split; [exact HG|]. cbn [rc_gres rc_io rk_of fst snd]. split; [apply LogRes_hard; exact Hc1|].
+    + exists K. split; [exact HG|]. split; [lia|]. cbn [rc_gres rc_io rk_of fst snd]. split; [apply LogRes_hard; exact Hc1|].
       split; [lia|intros; lia].
-    + exists K. split; [exact HG|]. cbn [rc_gres rc_io rk_of fst snd]. split; [apply LogRes_hard; exact Hc1|].
+    + exists K. split; [exact HG|]. split; [lia|]. cbn [rc_gres rc_io rk_of fst snd]. split; [apply LogRes_hard; exact Hc1|].
       split; [lia|]. intros Hh. rewrite (HardEnd_exists _ Hc1) in Hh. discriminate.
   - assert (E : rk_of (rc_gres okc_n (GErr (GIo e))) = rc_io e /\ rk_of (rc_gres okc_u (GErr (GIo e))) = rc_io e)
       by (split; reflexivity).
     destruct E as [E1 E2].
     assert (Hrc : rc_io e = 2 \/ rc_io e = 3) by (destruct He; subst; cbn; auto).
     split.
-    + exists K. split; [exact HG|]. rewrite E1. split; [apply LogRes_clean; [exact Hc1|lia|lia]|].
+    + exists K. split; [exact HG|]. split; [lia|]. rewrite E1. split; [apply LogRes_clean; [exact Hc1|lia|lia]|].
       split; [lia|]. intros; lia.
-    + exists K. split; [exact HG|]. rewrite E2. split; [apply LogRes_clean; [exact Hc1|lia|lia]|].
+    + exists K. split; [exact HG|]. split; [lia|]. rewrite E2. split; [apply LogRes_clean; [exact Hc1|lia|lia]|].
       split; [lia|]. intros _ _. split; lia.
 Qed.
 
@@ -839,7 +846,7 @@ Lemma post_ok c s' m' rk a b : LogInv (c_script c) s' ->
               o_moved := if is_read (c_op c) then nlen (c_src c) - nlen (k_src s') else nlen (k_sink s');
               o_sink := k_sink s'; o_mem := m' |} = true.
 Proof.
-  intros Hli (k & HG & (H4 & He & Hh) & HR). cbn [rk_of fst snd] in *.
+  intros Hli (k & HG & Hkc & (H4 & He & Hh) & HR). cbn [rk_of fst snd] in *.
   unfold ok_C14. cbn [o_rk o_a o_b o_calls o_moved o_sink o_mem].
   rewrite (LogInv_calls_made _ _ Hli).
   assert (Hmoved : (if is_read (c_op c) then nlen (c_src c) - nlen (k_src s') else nlen (k_sink s')) = k).
@@ -874,6 +881,7 @@ Proof.
       * exfalso. apply E1. apply Hiff. exact E2.
     + destruct HR as [H1 H0]. rewrite (neqb_true _ _ H1). cbn [andb].
       destruct (N.eqb_spec rk 0) as [E|E]; [|reflexivity]. apply N.eqb_eq. apply H0. exact E.
+  - apply N.leb_le. exact Hkc.
 Qed.
 
 Lemma C14_model_ok_lemma : forall c, wf14 c = true -> ok_C14 c (run_C14 c) = true.
@@ -890,13 +898,14 @@ Definition moved_of (c : case14) (s : sstream) : N :=
 Lemma exec_facts c s m rk a b : wf14 c = true -> exec14 c = Val ((s, m), (rk, a, b)) ->
   LogInv (c_script c) s
   /\ GMoved (is_read (c_op c)) (c_target c) (stream0 c) (c_mem c) (c_addr c) (moved_of c s) s m
+  /\ moved_of c s <= c_count c
   /\ LogRes (k_done s) rk
   /\ (if is_exact (c_op c)
       then rk <> 0 /\ (existsb is_hard (k_done s) = false -> judged (c_target c) (c_addr c) (c_count c) ->
                        (rk = 1 <-> moved_of c s = c_count c))
       else rk <> 1 /\ (rk = 0 -> a = moved_of c s)).
 Proof.
-  intros Hwf He. destruct (exec_post c Hwf) as (s' & m' & rc & He' & Hli & (k & HG & HL & HR)).
+  intros Hwf He. destruct (exec_post c Hwf) as (s' & m' & rc & He' & Hli & (k & HG & Hkc & HL & HR)).
   rewrite He in He'. inversion He'; subst s' m' rc. cbn [rk_of fst snd] in *.
   assert (Hk : moved_of c s = k).
   { unfold moved_of. destruct (is_read (c_op c)); cbn [GMoved] in HG.
@@ -989,7 +998,7 @@ Proof. intros c Hwf. destruct (exec_post c Hwf) as (s & m & rc & He & _). eauto.
 Lemma eintr_never_reported_lemma : forall c s m rk a b, wf14 c = true -> exec14 c = Val ((s, m), (rk, a, b)) ->
   rk <> 4 /\ last (k_done s) Zero <> Eintr.
 Proof.
-  intros c s m rk a b Hwf He. destruct (exec_facts c s m rk a b Hwf He) as (_ & _ & (H4 & H5 & _) & _).
+  intros c s m rk a b Hwf He. destruct (exec_facts c s m rk a b Hwf He) as (_ & _ & _ & (H4 & H5 & _) & _).
   split; [exact H4|]. intros E. rewrite E in H5. discriminate.
 Qed.
 
@@ -997,7 +1006,7 @@ Lemma harderr_reported_lemma : forall c s m rk a b, wf14 c = true -> exec14 c = 
   (In HardErr (k_done s) <-> rk = 5)
   /\ (rk = 5 -> last (k_done s) Zero = HardErr /\ ~ In HardErr (removelast (k_done s))).
 Proof.
-  intros c s m rk a b Hwf He. destruct (exec_facts c s m rk a b Hwf He) as (_ & _ & (H4 & H5 & H6) & _).
+  intros c s m rk a b Hwf He. destruct (exec_facts c s m rk a b Hwf He) as (_ & _ & _ & (H4 & H5 & H6) & _).
   assert (Hin : forall d, In HardErr d <-> existsb is_hard d = true).
   { intros d. rewrite existsb_exists. split.
     - intros H. exists HardErr. auto.
@@ -1057,7 +1066,7 @@ Lemma exact_ok_iff_full_lemma : forall c s m rk a b, wf14 c = true -> is_exact (
   rk <> 0 /\ (~ In HardErr (k_done s) -> (0 < c_count c \/ idx_of (c_target c) (c_addr c) <> None) ->
               (rk = 1 <-> moved_of c s = c_count c)).
 Proof.
-  intros c s m rk a b Hwf Hx He. destruct (exec_facts c s m rk a b Hwf He) as (_ & _ & _ & HR).
+  intros c s m rk a b Hwf Hx He. destruct (exec_facts c s m rk a b Hwf He) as (_ & _ & _ & _ & HR).
   rewrite Hx in HR. destruct HR as [H0 Hiff]. split; [exact H0|]. intros Hn Hj. apply Hiff; [|exact Hj].
   destruct (existsb is_hard (k_done s)) eqn:E; [|reflexivity]. exfalso. apply Hn.
   apply existsb_exists in E. destruct E as (x & Hx1 & Hx2). destruct x; try discriminate. exact Hx1.
@@ -1066,7 +1075,7 @@ Qed.
 Lemma upto_returns_moved_lemma : forall c s m rk a b, wf14 c = true -> is_exact (c_op c) = false ->
   exec14 c = Val ((s, m), (rk, a, b)) -> rk <> 1 /\ (rk = 0 -> a = moved_of c s).
 Proof.
-  intros c s m rk a b Hwf Hx He. destruct (exec_facts c s m rk a b Hwf He) as (_ & _ & _ & HR).
+  intros c s m rk a b Hwf Hx He. destruct (exec_facts c s m rk a b Hwf He) as (_ & _ & _ & _ & HR).
   rewrite Hx in HR. exact HR.
 Qed.
 
@@ -1077,4 +1086,10 @@ Proof.
   intros c s m rc Hwf He j Hj. destruct (is_read (c_op c)) eqn:Hr.
   - destruct (consumed_is_stored_lemma c s m rc Hwf Hr He) as (_ & _ & _ & _ & F). apply F. exact Hj.
   - destruct (handed_is_next_lemma c s m rc Hwf Hr He) as (-> & _). reflexivity.
+Qed.
+
+Lemma moved_le_count_lemma : forall c s m rc, wf14 c = true -> exec14 c = Val ((s, m), rc) ->
+  moved_of c s <= c_count c.
+Proof.
+  intros c s m [[rk a] b] Hwf He. destruct (exec_facts c s m rk a b Hwf He) as (_ & _ & H & _). exact H.
 Qed.
